@@ -6,6 +6,7 @@ package harness
 import (
 	"errors"
 	"fmt"
+	"math/big"
 	"os"
 	"sort"
 	"strconv"
@@ -21,6 +22,7 @@ import (
 	authtypes "github.com/cosmos/cosmos-sdk/x/auth/types"
 	distrtypes "github.com/cosmos/cosmos-sdk/x/distribution/types"
 	govtypes "github.com/cosmos/cosmos-sdk/x/gov/types"
+	govv1 "github.com/cosmos/cosmos-sdk/x/gov/types/v1"
 	transfertypes "github.com/cosmos/ibc-go/v8/modules/apps/transfer/types"
 	clienttypes "github.com/cosmos/ibc-go/v8/modules/core/02-client/types"
 	channeltypes "github.com/cosmos/ibc-go/v8/modules/core/04-channel/types"
@@ -96,6 +98,8 @@ type coreH struct {
 	// blockedErr[i]: the bank's own refusal of blocked[i] (obtained from the bank at fixture start):
 	// the reference value the `blockedRecipient` result class is recognised by
 	blockedErr []error
+	// extra: "nobody" addresses (Actor(1000+i)) that were named in an op, by bech32 string -> i
+	extra map[string]int
 }
 
 // coreBlockedBase: index of the first blocked module account in the model's address space
@@ -219,7 +223,33 @@ func (h *coreH) onApp(f *Fix) *coreH {
 	return &c
 }
 
+// ownerName: the token of a rollapp owner string (decoded: the spelling's case does not matter)
+func (h *coreH) ownerName(owner string) string {
+	a, err := sdk.AccAddressFromBech32(owner)
+	if err != nil {
+		return "?" + owner
+	}
+	if a.Equals(h.owner) {
+		return "o0"
+	}
+	for i, b := range h.blocked {
+		if a.Equals(b) {
+			return "m" + strconv.Itoa(i)
+		}
+	}
+	if i, ok := h.actorIdx[a.String()]; ok {
+		return coreActorName(i)
+	}
+	if i, ok := h.extra[a.String()]; ok {
+		return coreActorName(i)
+	}
+	return "?" + owner
+}
+
 func (h *coreH) actor(tok string) (int, sdk.AccAddress) {
+	if strings.HasPrefix(tok, "o") { // the creator (first owner) of every rollapp
+		return -3, h.owner
+	}
 	if strings.HasPrefix(tok, "m") { // blocked module account (only meaningful as a recipient)
 		if i, err := strconv.Atoi(tok[1:]); err == nil && i >= 0 && i < len(h.blocked) {
 			return coreBlockedBase + i, h.blocked[i]
@@ -227,6 +257,10 @@ func (h *coreH) actor(tok string) (int, sdk.AccAddress) {
 	}
 	i, _ := strconv.Atoi(strings.TrimPrefix(tok, "a"))
 	if i < 0 || i >= len(h.actors) {
+		if h.extra == nil {
+			h.extra = map[string]int{}
+		}
+		h.extra[Actor(1000+i).String()] = i
 		return i, Actor(1000 + i) // unknown actor: a valid address that is nobody
 	}
 	return i, h.actors[i]
@@ -481,6 +515,74 @@ func (h *coreH) exec(line string) string {
 		}
 		_, err := h.f.Deliver(&msg)
 		return h.msgClass(err)
+	case "xferowner":
+		// x/rollapp MsgTransferOwnership signed by `by`; uc=1: the new owner's bech32 string in upper case
+		// (valid bech32, the same address)
+		_, id := h.rollapp(f[1])
+		_, by := h.actor(m["by"])
+		_, to := h.actor(m["to"])
+		newOwner := to.String()
+		if m["uc"] == "1" {
+			newOwner = strings.ToUpper(newOwner)
+		}
+		_, err := h.f.Deliver(&rollapptypes.MsgTransferOwnership{CurrentOwner: by.String(), NewOwner: newOwner, RollappId: id})
+		return okErr(err)
+	case "set_seq_params":
+		// x/sequencer MsgUpdateParams (the whole parameter set is replaced)
+		auth := h.gov
+		if m["auth"] != "gov" {
+			_, x := h.actor(m["auth"])
+			auth = x.String()
+		}
+		sp := app.SequencerKeeper.GetParams(h.f.Ctx)
+		mul, ok := new(big.Int).SetString(m["mul"], 10)
+		if !ok {
+			return "bad-op"
+		}
+		sp.NoticePeriod = time.Duration(atoi(m["notice"]))
+		sp.DishonorKickThreshold = atou(m["kick"])
+		sp.LivenessSlashMinMultiplier = math.LegacyNewDecFromBigIntWithPrec(mul, 18)
+		sp.LivenessSlashMinAbsolute = sdk.NewCoin(coreDenom, math.NewIntFromUint64(atou(m["abs"])))
+		sp.DishonorStateUpdate = atou(m["dsu"])
+		sp.DishonorLiveness = atou(m["dl"])
+		_, err := h.f.Deliver(&seqtypes.MsgUpdateParams{Authority: auth, Params: sp})
+		if err == nil { // the monitors and the generator read the parameters in force from h.p
+			h.p.NoticeNs, h.p.Kick, h.p.MulRaw, h.p.Abs, h.p.DSU, h.p.DL = atoi(m["notice"]), atou(m["kick"]), mul.Int64(), atou(m["abs"]), atou(m["dsu"]), atou(m["dl"])
+		}
+		return okErr(err)
+	case "punish":
+		// the standalone governance PunishSequencerProposal, delivered the way an executed proposal
+		// delivers it: x/gov's MsgExecLegacyContent -> legacy router -> x/sequencer's proposal handler
+		_, a := h.actor(f[1])
+		auth := h.gov
+		if m["auth"] != "gov" {
+			_, x := h.actor(m["auth"])
+			auth = x.String()
+		}
+		content := &seqtypes.PunishSequencerProposal{Title: "t", Description: "d", PunishSequencerAddress: a.String()}
+		if m["rewardee"] != "-" {
+			_, rw := h.actor(m["rewardee"])
+			content.Rewardee = rw.String()
+		}
+		any, err := codectypes.NewAnyWithValue(content)
+		if err != nil {
+			return "bad-op"
+		}
+		_, err = h.f.Deliver(&govv1.MsgExecLegacyContent{Content: any, Authority: auth})
+		// x/gov flattens the handler's error into the text of ErrInvalidProposalContent (%+v): the
+		// bank's refusal of the recipient is recognised by the bank's own text for that recipient
+		if err != nil && !IsPanic(err) {
+			for _, ref := range h.blockedErr {
+				txt := ref.Error()
+				if i := strings.LastIndex(txt, ": "); i > 0 {
+					txt = txt[:i]
+				}
+				if strings.Contains(err.Error(), txt) {
+					return "blockedRecipient"
+				}
+			}
+		}
+		return okErr(err)
 	case "obsolete":
 		auth := h.gov
 		if m["auth"] != "gov" {
@@ -569,6 +671,8 @@ type coreRa struct {
 	LastFin, Latest uint64
 	EvH, CdStart    int64
 	Prop, Succ      int // -1 = sentinel
+	Owner           string // token: o0 / a<i> / m<i>
+	OwnerBlocked    bool   // the bank refuses the stored owner as a recipient (monitors only)
 	States          []coreState
 	ByHeight        map[uint64]uint64
 	Probes          []uint64
@@ -595,6 +699,7 @@ type coreSnap struct {
 	Bal    []math.Int
 	MBal   []math.Int // balances of the blocked module accounts m0.. (monitors only, not part of the observation)
 	Supply math.Int
+	SP     string   // x/sequencer params in force: notice,kick,mul(raw),abs,dsu,dl
 	Pk     []corePk // pending delayed packets of the rollapps
 }
 
@@ -628,6 +733,10 @@ func (h *coreH) snapshot() *coreSnap {
 			continue
 		}
 		r.Exists, r.Launched, r.Tph = true, ra.Launched, ra.GenesisState.TransferProofHeight
+		r.Owner = h.ownerName(ra.Owner)
+		if oa, err := sdk.AccAddressFromBech32(ra.Owner); err != nil || app.BankKeeper.BlockedAddr(oa) {
+			r.OwnerBlocked = true
+		}
 		for _, rv := range ra.Revisions {
 			r.Revs = append(r.Revs, [2]uint64{rv.Number, rv.StartHeight})
 		}
@@ -727,6 +836,18 @@ func (h *coreH) snapshot() *coreSnap {
 		s.MBal = append(s.MBal, app.BankKeeper.GetBalance(ctx, a, coreDenom).Amount)
 	}
 	s.Supply = app.BankKeeper.GetSupply(ctx, coreDenom).Amount
+	{
+		sp := app.SequencerKeeper.GetParams(ctx)
+		abs := "0"
+		if sp.LivenessSlashMinAbsolute.Denom == coreDenom && !sp.LivenessSlashMinAbsolute.Amount.IsNil() {
+			abs = sp.LivenessSlashMinAbsolute.Amount.String()
+		}
+		mul := "0"
+		if !sp.LivenessSlashMinMultiplier.IsNil() {
+			mul = sp.LivenessSlashMinMultiplier.BigInt().String()
+		}
+		s.SP = fmt.Sprintf("%d,%d,%s,%s,%d,%d", int64(sp.NoticePeriod), sp.DishonorKickThreshold, mul, abs, sp.DishonorStateUpdate, sp.DishonorLiveness)
+	}
 	for _, pk := range app.DelayedAckKeeper.ListRollappPackets(ctx, datypes.ByStatus(commontypes.Status_PENDING)) {
 		ri, ok := h.raIdx[pk.RollappId]
 		if !ok {
@@ -782,7 +903,7 @@ func (s *coreSnap) render(res string) string {
 			}
 			fmt.Fprintf(&sb, "%d@%d", rv[0], rv[1])
 		}
-		fmt.Fprintf(&sb, " n=%d fin=%d ev=%d cd=%d prop=%s succ=%s st=", r.Latest, r.LastFin, r.EvH, r.CdStart, coreActorName(r.Prop), coreActorName(r.Succ))
+		fmt.Fprintf(&sb, " n=%d fin=%d ev=%d cd=%d prop=%s succ=%s own=%s st=", r.Latest, r.LastFin, r.EvH, r.CdStart, coreActorName(r.Prop), coreActorName(r.Succ), r.Owner)
 		for i, st := range r.States {
 			if i > 0 {
 				sb.WriteByte(';')
@@ -851,6 +972,7 @@ func (s *coreSnap) render(res string) string {
 		}
 		sb.WriteString(b.String())
 	}
+	sb.WriteString(" | sp=" + s.SP)
 	return sb.String()
 }
 
